@@ -122,8 +122,10 @@ def _instances(trace, meta):
     last = {"kind": None, "dd": None, "n": 0, "irn": 0}
     hop = 0
     prev = "none"
+    path_kinds = []
     for l, e in enumerate(trace["ev"], 1):
         if e["a"] == "reset":
+            path_kinds = []
             ref, cur, art = cur, trace["init"], None
             last = {"kind": None, "dd": None, "n": 0, "irn": 0}
             hop, prev = 0, "none"
@@ -226,6 +228,44 @@ def _instances(trace, meta):
             f.update(cl=cl, obs=obs, comps=comps_of(b) if comps is None else comps)
             return (l, cl, "-", f)
 
+        if trace.get("mode") == "chain":
+            o = trace["init"]
+            cbase = dict(base, path=sorted({x for x in path_kinds + [k]}))
+
+            def cev(cl, obs):
+                f = dict(cbase)
+                f.update(cl=cl, obs=obs, comps=comps_of(o))
+                return (l, cl, "-", f)
+
+            if e["exc"] != "none":
+                yield cev("NeverRaises", e["exc"])
+            else:
+                a = e["ir"]
+                yield cev("NeverRaises", "ok")
+                yield cev("Chain.Summary", a["doc"])
+                yield cev("Chain.NamesOrder", "order")
+                yield cev("Chain.NoExtraNames", sorted({_nn(p["name"]) for p in a["params"] if not _by_name(o["params"], p["name"])}))
+                for i, s0 in enumerate(o["params"]):
+                    q = _by_name(a["params"], s0["name"])
+                    ctx = dict(cbase, s=micro(s0), comps=comps_of(o), pd=any(x["def"] != "absent" for x in o["params"][:i]),
+                               ld=any(x["def"] != "absent" for x in o["params"][i + 1:]))
+                    if q is None:
+                        yield (l, "Chain.NamePresent", s0["name"], dict(ctx, cl="Chain.NamePresent", obs="missing"))
+                        continue
+                    yield (l, "Chain.NamePresent", s0["name"], dict(ctx, cl="Chain.NamePresent", obs="present"))
+                    yield (l, "Chain.Typ", s0["name"], dict(ctx, cl="Chain.Typ", obs=q["typ"]))
+                    yield (l, "Chain.Def", s0["name"], dict(ctx, cl="Chain.Def", obs=q["def"]))
+                    yield (l, "Chain.Prose", s0["name"], dict(ctx, cl="Chain.Prose", obs=[q["dbase"], q["dann"]]))
+                r = a["ret"]
+                f = dict(cbase)
+                f.update(cl="Chain.Ret", obs=[r["present"], r["typ"], r["dbase"], r["def"]], comps=comps_of(o), ret=micro_ret(o["ret"]))
+                yield (l, "Chain.Ret", "return", f)
+                cur = a
+            path_kinds.append(k)
+            last = dict(last, irn=last["irn"] + 1)
+            prev = k
+            art = None
+            continue
         if e["exc"] != "none":
             yield ev("NeverRaises", e["exc"])
         else:
@@ -425,6 +465,7 @@ def build(prop, thorough, rnd):
                 for kind in ch:
                     acts += [("emit", kind, o_for(kind)), ("parse",)]
                 add(ts[j % len(ts)], air, acts)
+                scs[-1]["mode"] = "chain"
     else:
         raise ValueError(prop)
     return scs
